@@ -15,6 +15,8 @@ values, with an assume/guarantee contract at the state-key boundary:
          weight function (which shifts by its beta argument) or a shift-free
          value written while beta is 0
   C10.d  no conflict (incompatible shift combination) anywhere in scope
+  C10.e  log-domain discipline: no exponential of a value that still shifts with
+         the offset (exact-arithmetic invariance that over/underflows in floats)
 """
 from __future__ import annotations
 
@@ -120,7 +122,18 @@ def make_interp(ctx: Context, fi: FuncInfo, wfn: FuncInfo, coll: Collector, dept
                 k = p_const(1)
             ev = shift(k, ())
             ev.why = "evidence"
-            return ST("tuple", items=[inv(("S",), norm=True), ev])
+            # normalize=False: the (decided, C04.b) type of unnormalised log-weights is Shift(beta_final)
+            normp = next((p for p in wfn.params if "normal" in p), None)
+            narg = call_arg(call, 1, normp) if normp else None
+            if narg is None:
+                lw = inv(("S",), norm=True)
+            elif const_value(narg) is True:
+                lw = inv(("S",), norm=True)
+            elif const_value(narg) is False:
+                lw = shift(k, ("S",))
+            else:
+                lw = ST("unknown", why=f"offset-dependent: normalisation flag `{unparse(narg)}` of the weight function is not a constant")
+            return ST("tuple", items=[lw, ev])
         cands = [t for t in tg if not t.is_abstract and t.module.name not in SCOPE_EXCLUDE_MODULES and not (t.cls is not None and t.cls.name in ("ProgressBar",))]
         if cands and len(cands) == len([t for t in tg if not t.is_abstract]):
             outl = []
@@ -162,6 +175,7 @@ def rule(ctx: Context, R: Reporter):
     n_conf = 0
     typed_fns = 0
     seen_conf = set()
+    seen_haz = set()
     for fi in fns:
         si = make_interp(ctx, fi, wfn, coll)
         try:
@@ -188,6 +202,16 @@ def rule(ctx: Context, R: Reporter):
             R.check("C10.d", f"no incompatible shift combination in {fi.short}", False, fi, c.node if c.node is not None else fi.node,
                     msg=f"{fi.short}: {c.why} at `{unparse(c.node)[:70] if c.node is not None else ''}`: an absolute log-likelihood leaks into a quantity that should only see differences",
                     key=f"conflict:{k[1]}")
+        # C10.e: log-domain discipline -- an exponential of a value that still shifts with c is invariant only in
+        # exact arithmetic; for |c| of a few hundred it over/underflows and the run changes
+        for (hz, ht) in si.hazards:
+            k = (fi.short, norm_text(hz)[:80])
+            if k in seen_haz:
+                continue
+            seen_haz.add(k)
+            R.check("C10.e", f"exponentials in {fi.short} are taken of shift-free values only", False, fi, hz,
+                    msg=f"{fi.short}: `{unparse(hz)[:70]}` exponentiates a value of type {ht!r}: the result scales by exp(k*c) and under/overflows for a large likelihood offset, so the "
+                        f"run is not unchanged \"up to rounding\" (subtract the maximum or use differences first)", key=f"exp-hazard:{k[1]}")
         # returns of the steps' public `run` methods and of the weight/ESS helpers must be shift-free (except evidence-like)
         if fi.name in ("run", "_compute_metric_and_weights", "_finalize_iteration", "_compute_acceptance_factor", "_not_termination") or (fi.cls is None and fi.module.name == "tempest.tools"):
             for (r, t) in rets:
@@ -260,6 +284,8 @@ def rule(ctx: Context, R: Reporter):
                 key=f"write:{fi.short}:{key}:{norm_text(call)[:30]}")
     R.floor("C10.b", "typed state writes", n_w, 10)
     R.floor("C10.c", "typed logz writes", n_z, 3)
+    if not seen_haz:
+        R.check("C10.e", f"no exponential of a shifted value in {typed_fns} typed functions", True, None, None, key="no-exp-hazard", loc="tempest/")
     if n_conf == 0:
         R.check("C10.d", f"no shift conflict in {typed_fns} typed functions", True, None, None, key="no-conflict", loc="tempest/")
 
@@ -317,6 +343,9 @@ def variants():
     mu = "tempest/steps/mutate.py"
     core = "tempest/core.py"
     return [
+        Variant("e-unnormalised-exp", "bad", chain(replace_stmt(rw, "Reweighter._compute_metric_and_weights", "logw, _ = self.state.compute_logw_and_logz(beta)", "logw, _ = self.state.compute_logw_and_logz(beta, normalize=False)"), replace_expr(rw, "Reweighter._compute_metric_and_weights", "np.exp(logw - np.max(logw))", "np.exp(logw)")), ["C10.e"], quick=True),
+        Variant("e-unnormalised-maxshift-benign", "benign", replace_stmt(rw, "Reweighter._compute_metric_and_weights", "logw, _ = self.state.compute_logw_and_logz(beta)", "logw, _ = self.state.compute_logw_and_logz(beta, normalize=False)")),
+        Variant("e-linear-acceptance", "bad", replace_expr(mc, "BaseMCMCRunner.run", "np.exp(self.beta * (logl_prime - self.logl) + alpha)", "np.exp(self.beta * logl_prime) / np.exp(self.beta * self.logl) * np.exp(alpha)"), ["C10.e"]),
         Variant("a-accept-absolute-logl", "bad", replace_expr(mc, "BaseMCMCRunner.run", "self.beta * (logl_prime - self.logl) + alpha", "self.beta * logl_prime - self.logl + alpha"), ["C10.d", "C10.a", "C10.b"], quick=True),
         Variant("a-ess-unshifted-weights", "bad", chain(replace_stmt(rw, "Reweighter._compute_metric_and_weights", "logw, _ = self.state.compute_logw_and_logz(beta)", "logw, lz = self.state.compute_logw_and_logz(beta)"), replace_expr(rw, "Reweighter._compute_metric_and_weights", "np.exp(logw - np.max(logw))", "np.exp(logw + lz)")), ["C10.b", "C10.a", "C10.d"]),
         Variant("a-threshold-on-logl", "bad", insert_before(mu, "Mutator.run", "inf_logl_mask = np.isinf(logl)", "if np.max(logl) < -100.0:\n    logl = logl + 0.0"), ["C10.a"], quick=True),
